@@ -1,11 +1,17 @@
 package c06
 
 import (
+	"fmt"
 	"net"
 	"net/http"
+	"net/http/httptest"
+	"runtime"
+	"sort"
 	"strings"
+	"sync"
 	"time"
 
+	"github.com/0xReLogic/Helios/internal/adminapi"
 	"github.com/0xReLogic/Helios/internal/config"
 	"github.com/0xReLogic/Helios/internal/loadbalancer"
 	"github.com/0xReLogic/Helios/verifharness/lab"
@@ -41,6 +47,66 @@ type pool struct {
 	nextID  int
 	names   []string
 	ejected map[string]bool
+
+	naming    naming
+	hostName  map[string]string // scripted host -> the name the operator gave that backend
+	cfg       *config.Config
+	adminOnce sync.Once
+	admin     http.Handler
+}
+
+// ---------------------------------------------------------------------------------------------
+// Backend names. The statement's clauses are about which backend a client is sent to; what the
+// operator called the backends, and whether the order in which they joined the pool happens to be
+// the byte-wise order of those names, is irrelevant to every one of them. Pools are therefore named
+// by a drawn scheme; in most of them arrival order and name order differ (web-1 .. web-9 then
+// web-10; a count-down; tiers; addresses; free names in a drawn order).
+// ---------------------------------------------------------------------------------------------
+
+type naming struct {
+	Scheme string   `json:"scheme,omitempty"`
+	Words  []string `json:"words,omitempty"` // scheme "drawn": the vocabulary in its drawn order
+}
+
+var namingSchemes = []string{"b0", "web-1", "padded", "countdown", "host:port", "tiers", "drawn", "drawn", "web-1"}
+
+var nameVocabulary = []string{"alpha", "bravo", "Charlie", "delta", "echo", "Foxtrot", "golf", "hotel", "india", "Juliet", "kilo", "lima", "Z\u00fcrich", "east 1",
+	"EU_west", "us-east-1a", "us-east-1b", "blue", "green", "canary", "primary", "replica.2", "app01", "app1", "app10", "APP2"}
+
+func (nm naming) name(i int) string {
+	switch nm.Scheme {
+	case "web-1": // web-1 .. web-9, web-10, web-11: the scale-out classic ("web-10" < "web-2")
+		return fmt.Sprintf("web-%d", i+1)
+	case "padded": // srv-001, srv-002: arrival order IS name order (until something is removed)
+		return fmt.Sprintf("srv-%03d", i+1)
+	case "countdown": // node-500, node-499, ...
+		return fmt.Sprintf("node-%d", 500-i)
+	case "host:port": // named after their addresses
+		return fmt.Sprintf("10.0.0.%d:8080", i+1)
+	case "tiers": // web-1, api-1, DB-1, cache-1, Web-1, web-2, ...
+		return fmt.Sprintf("%s-%d", []string{"web", "api", "DB", "cache", "Web"}[i%5], i/5+1)
+	case "drawn":
+		w := nm.Words[i%len(nm.Words)]
+		if i >= len(nm.Words) {
+			w += fmt.Sprintf("-%d", i/len(nm.Words)+1)
+		}
+		return w
+	}
+	return lab.BackendName(i) // b0, b1, ... ("b10" < "b2")
+}
+
+// unsorted: the pool's order (arrival order, as far as the harness knows it) is not the byte-wise
+// order of the names.
+func unsorted(names []string) bool { return !sort.StringsAreSorted(names) }
+
+// unsortedNow: the order the pool is in right now (removals move the last backend into the gap) is not
+// the byte-wise order of the names.
+func (p *pool) unsortedNow() bool {
+	var names []string
+	for _, b := range p.lb.VerifBackends() {
+		names = append(names, b.Name)
+	}
+	return unsorted(names)
 }
 
 // poolWeights: the statement's affinity and remapping clauses are about which backend a client address
@@ -62,13 +128,47 @@ func poolWeights(strategy string, n int) []int {
 }
 
 func newPool(strategy string, n int) (*pool, error) {
-	lb, err := loadbalancer.NewLoadBalancer(lab.BaseConfig(strategy, poolWeights(strategy, n)))
+	return newPoolWith(strategy, n, poolOpts{})
+}
+
+// poolOpts: what else the operator configured. The zero value is the pool the older sub-checks use
+// (names b0, b1, ..., no active health checks).
+type poolOpts struct {
+	Naming naming `json:"naming"`
+	// Helios's own active health checks (health_checks.active): every interval seconds each backend
+	// that is not ejected is probed; a probe that passes confirms "healthy" and changes nothing.
+	// The caller must have scripted http.DefaultTransport (FakeNet.WithDefaultTransport) before.
+	ProbeInterval int    `json:"probe_interval_s,omitempty"`
+	ProbeTimeout  int    `json:"probe_timeout_s,omitempty"`
+	ProbePath     string `json:"probe_path,omitempty"`
+	Passive       bool   `json:"passive,omitempty"` // health_checks.passive as in the shipped helios.yaml (3 failures, 30 s)
+	fn            *lab.FakeNet
+}
+
+func newPoolWith(strategy string, n int, o poolOpts) (*pool, error) {
+	cfg := lab.BaseConfig(strategy, poolWeights(strategy, n))
+	for i := range cfg.Backends {
+		cfg.Backends[i].Name = o.Naming.name(i)
+	}
+	if o.ProbeInterval > 0 {
+		cfg.HealthChecks.Active.Enabled = true
+		cfg.HealthChecks.Active.Interval, cfg.HealthChecks.Active.Timeout, cfg.HealthChecks.Active.Path = o.ProbeInterval, o.ProbeTimeout, o.ProbePath
+	}
+	if o.Passive {
+		cfg.HealthChecks.Passive.Enabled, cfg.HealthChecks.Passive.UnhealthyThreshold, cfg.HealthChecks.Passive.UnhealthyTimeout = true, 3, 30
+	}
+	fn := o.fn
+	if fn == nil {
+		fn = lab.NewFakeNet()
+	}
+	lb, err := loadbalancer.NewLoadBalancer(cfg)
 	if err != nil {
 		return nil, err
 	}
-	p := &pool{lb: lb, fn: lab.NewFakeNet(), ejected: map[string]bool{}, nextID: n}
+	p := &pool{lb: lb, fn: fn, ejected: map[string]bool{}, nextID: n, naming: o.Naming, hostName: map[string]string{}, cfg: cfg}
 	for i := 0; i < n; i++ {
-		p.names = append(p.names, lab.BackendName(i))
+		p.names = append(p.names, o.Naming.name(i))
+		p.hostName[lab.BackendHost(i)] = o.Naming.name(i)
 	}
 	p.fn.Install(lb)
 	return p, nil
@@ -76,7 +176,8 @@ func newPool(strategy string, n int) (*pool, error) {
 
 // appendBackend adds one backend at the end of the pool (what the admin API's add does).
 func (p *pool) appendBackend() (string, error) {
-	name := lab.BackendName(p.nextID)
+	name := p.naming.name(p.nextID)
+	p.hostName[lab.BackendHost(p.nextID)] = name
 	if err := p.lb.AddBackend(config.BackendConfig{Name: name, Address: "http://" + lab.BackendHost(p.nextID), Weight: 1 + p.nextID%3}); err != nil {
 		return "", err
 	}
@@ -159,7 +260,143 @@ func (p *pool) pick(s reqSpec, via string) (string, int) {
 	if st != 200 || host == "" {
 		return "", st
 	}
-	return strings.TrimSuffix(host, ".test"), st
+	if name, ok := p.hostName[host]; ok {
+		return name, st
+	}
+	return "unknown host " + host, st
+}
+
+// ---------------------------------------------------------------------------------------------
+// Observers: what an operator, a dashboard or a monitoring job does on the same balancer while
+// clients are being served. All of them only look: none adds, removes, ejects or re-admits anything,
+// so the set of eligible backends is the same before and after, and by the statement every client
+// stays where it is.
+// ---------------------------------------------------------------------------------------------
+
+var observerNames = []string{"admin GET /v1/health", "admin GET /v1/backends", "admin GET /v1/metrics", "MetricsHandler", "HealthHandler",
+	"lb.ListBackends", "lb.IsBackendHealthy(members that are not ejected)", "GetMetrics", "admin GET on the POST-only endpoints (405)", "Backend.GetActiveConnections"}
+
+// observerTable is what observer kinds are drawn from: the two listings somewhat more often than the rest.
+var observerTable = []int{0, 1, 1, 2, 3, 4, 5, 5, 6, 7, 8, 9}
+
+func isListing(kind int) bool { return kind == 1 || kind == 5 }
+
+func (p *pool) adminMux() http.Handler {
+	p.adminOnce.Do(func() { p.admin = adminapi.NewMux(p.lb, p.cfg, p.lb.GetMetricsCollector()) })
+	return p.admin
+}
+
+// observe makes one read-only call. skip lists the backends that are inside an ejection window (for
+// kind 6 only: asking about those could re-admit them once the window is over, which is not "only
+// looking"); safe for concurrent use once adminMux() has been called.
+func (p *pool) observe(kind int, skip map[string]bool) {
+	get := func(h http.Handler, path string) {
+		h.ServeHTTP(httptest.NewRecorder(), httptest.NewRequest("GET", "http://admin.test"+path, nil))
+	}
+	switch kind {
+	case 0:
+		get(p.adminMux(), "/v1/health")
+	case 1:
+		get(p.adminMux(), "/v1/backends")
+	case 2:
+		get(p.adminMux(), "/v1/metrics")
+	case 3:
+		get(p.lb.GetMetricsCollector().MetricsHandler(), "/metrics")
+	case 4:
+		get(p.lb.GetMetricsCollector().HealthHandler(), "/health")
+	case 5:
+		_ = p.lb.ListBackends()
+	case 6:
+		for _, b := range p.lb.VerifBackends() {
+			if !skip[b.Name] {
+				_ = p.lb.IsBackendHealthy(b)
+			}
+		}
+	case 7:
+		_ = p.lb.GetMetricsCollector().GetMetrics()
+	case 8:
+		for _, path := range []string{"/v1/backends/add", "/v1/backends/remove", "/v1/strategy"} {
+			get(p.adminMux(), path)
+		}
+	case 9:
+		for _, b := range p.lb.VerifBackends() {
+			_ = b.GetActiveConnections()
+		}
+	}
+}
+
+func (p *pool) backend(name string) *loadbalancer.Backend {
+	for _, b := range p.lb.VerifBackends() {
+		if b.Name == name {
+			return b
+		}
+	}
+	return nil
+}
+
+// Somebody else is at a backend's state while a request is being routed. Backend.Mutex (exported) guards
+// the backend's health fields; Helios's own prober takes it as a writer to confirm "healthy" after every
+// passing probe, listings and other requests take it as readers. None of this changes anybody's health,
+// so the eligible set is what it was and the request belongs to the same backend as before - the router
+// may have to wait for the lock, it may not decide differently.
+var lockHolds = []string{"reader", "writer", "writer-waiting-behind-reader"}
+
+// pickContended sends one request while the lock of backend target is held in the given way. The hold ends
+// once the request has returned or, when it waits for the lock (as it should), after a bounded number of
+// scheduler yields; nothing is timed, and the result does not depend on how long the hold was.
+func (p *pool) pickContended(s reqSpec, via, target, hold string) (string, int) {
+	b := p.backend(target)
+	if b == nil {
+		return p.pick(s, via)
+	}
+	release := func() {}
+	switch hold {
+	case "reader":
+		b.Mutex.RLock()
+		release = b.Mutex.RUnlock
+	case "writer":
+		b.Mutex.Lock()
+		release = func() {
+			confirmed := b.IsHealthy // what a passing probe does: the flag is confirmed, not changed
+			b.IsHealthy = confirmed
+			b.Mutex.Unlock()
+		}
+	case "writer-waiting-behind-reader":
+		b.Mutex.RLock()
+		wdone := make(chan struct{})
+		go func() {
+			b.Mutex.Lock()
+			b.Mutex.Unlock()
+			close(wdone)
+		}()
+		for b.Mutex.TryRLock() { // until the writer is queued (a queued writer keeps new readers out)
+			b.Mutex.RUnlock()
+			runtime.Gosched()
+		}
+		release = func() {
+			b.Mutex.RUnlock()
+			<-wdone
+		}
+	}
+	var name string
+	var st int
+	done := make(chan struct{})
+	go func() {
+		name, st = p.pick(s, via)
+		close(done)
+	}()
+wait:
+	for i := 0; i < 300; i++ {
+		select {
+		case <-done:
+			break wait
+		default:
+			runtime.Gosched()
+		}
+	}
+	release()
+	<-done
+	return name, st
 }
 
 // valid is the statement's "the choice is a valid eligible backend".
